@@ -165,49 +165,60 @@ def pow10 (k : Int) : Rat :=
   | .ofNat n => (10 ^ n : Nat)
   | .negSucc n => 1 / ((10 ^ (n + 1) : Nat) : Rat)
 
+/-- exponent suffix of a decimal literal: `none` = malformed, `some 0` when absent -/
+def parseExponent (r : Str) : Option Int :=
+  match r with
+  | [] => some 0
+  | e :: t =>
+    if e == 'e' || e == 'E' then
+      let sd : Bool × Str := match t with
+        | '-' :: u => (true, u)
+        | '+' :: u => (false, u)
+        | u => (false, u)
+      if sd.2.isEmpty || !sd.2.all isDigit then none
+      else some (if sd.1 then - (Int.ofNat (digitsVal sd.2)) else Int.ofNat (digitsVal sd.2))
+    else none
+
+/-- unsigned decimal literal `digits [. digits] [e±digits]` → (mantissa as an integer, number of fraction
+    digits, exponent); `none` if malformed -/
+def parseUnsignedDecimal (body : Str) : Option (Nat × Nat × Int) :=
+  let ip := body.takeWhile isDigit
+  let r1 := body.dropWhile isDigit
+  let fr : Str × Str := match r1 with
+    | '.' :: t => (t.takeWhile isDigit, t.dropWhile isDigit)
+    | t => ([], t)
+  if ip.isEmpty && fr.1.isEmpty then none
+  else match parseExponent fr.2 with
+    | none => none
+    | some e => some (digitsVal (ip ++ fr.1), fr.1.length, e)
+
+/-- value of a parsed decimal, with overflow to ±inf and underflow to 0 as `f64` parsing does -/
+def decimalToNum (neg : Bool) (mant fracLen : Nat) (e : Int) : Num :=
+  if e > 400 then (if mant == 0 then Num.mk 0 true else if neg then .ninf else .inf)
+  else if e < -400 then Num.mk 0 (mant == 0)
+  else
+    let q : Rat := (mant : Rat) * pow10 (e - fracLen)
+    let q := if neg then -q else q
+    if q ≥ ((2 ^ 1024 : Nat) : Rat) then .inf
+    else if q ≤ -((2 ^ 1024 : Nat) : Rat) then .ninf
+    else Num.mk q true
+
+/-- sign of a numeric literal -/
+def splitSign (s : Str) : Bool × Str :=
+  match s with
+  | '-' :: r => (true, r)
+  | '+' :: r => (false, r)
+  | r => (false, r)
+
 /-- Rust `str::parse::<f64>()`: decimal literals with optional sign, fraction, exponent; `inf`,
     `infinity`, `nan` in any case.  Result exact iff the decimal value is a small dyadic rational. -/
 def parseF64? (s : Str) : Option Num :=
-  let (neg, body) := match s with
-    | '-' :: r => (true, r)
-    | '+' :: r => (false, r)
-    | r => (false, r)
-  let lb := lowerStr body
-  if lb == ofS "inf" || lb == ofS "infinity" then some (if neg then .ninf else .inf)
+  let sb := splitSign s
+  let lb := lowerStr sb.2
+  if lb == ofS "inf" || lb == ofS "infinity" then some (if sb.1 then .ninf else .inf)
   else if lb == ofS "nan" then some .nan
-  else
-    let ip := body.takeWhile isDigit
-    let r1 := body.dropWhile isDigit
-    let (fp, r2, hasDot) := match r1 with
-      | '.' :: t => (t.takeWhile isDigit, t.dropWhile isDigit, true)
-      | t => ([], t, false)
-    if ip.isEmpty && fp.isEmpty then none
-    else
-      let _ := hasDot
-      let exp? : Option (Option Int) := match r2 with
-        | [] => some none
-        | e :: t =>
-          if e == 'e' || e == 'E' then
-            let (eneg, ds) := match t with
-              | '-' :: u => (true, u)
-              | '+' :: u => (false, u)
-              | u => (false, u)
-            if ds.isEmpty || !ds.all isDigit then none
-            else some (some (if eneg then - (Int.ofNat (digitsVal ds)) else Int.ofNat (digitsVal ds)))
-          else none
-      match exp? with
-      | none => none
-      | some ex =>
-        let e : Int := ex.getD 0
-        if e > 400 then some (if (digitsVal (ip ++ fp)) == 0 then Num.mk 0 true else if neg then .ninf else .inf)
-        else if e < -400 then some (Num.mk 0 ((digitsVal (ip ++ fp)) == 0))
-        else
-          let mant : Rat := (digitsVal (ip ++ fp) : Nat)
-          let q := mant * pow10 (e - fp.length)
-          let q := if neg then -q else q
-          -- beyond f64::MAX the parse overflows to ±inf
-          if q ≥ ((2 ^ 1024 : Nat) : Rat) then some .inf
-          else if q ≤ -((2 ^ 1024 : Nat) : Rat) then some .ninf
-          else some (Num.mk q true)
+  else match parseUnsignedDecimal sb.2 with
+    | none => none
+    | some (mant, fl, e) => some (decimalToNum sb.1 mant fl e)
 
 end Fsel
